@@ -53,6 +53,12 @@ CLAIMED.update({
     'C20': dict(engine='P', design='§8 C20', technique='bounded symbolic execution of ptb_of -> read_ptb and ja_of -> read_ccgbank on z3 with symbolic tokens, labels and annotations; every proper prefix of a PTB line; replay on real files',
                 text='within the bounds PTB and Japanese-bank text written by depccg reads back to the same categories, shape, words (and rule symbols for ja), with and without bank annotations; truncated PTB lines are rejected; one recorded finding (PTB tokens beginning with "(" or ending with ")")'),
 })
+CLAIMED.update({
+    'C17': dict(engine='P', design='§8 C17', technique='bounded symbolic execution of apply_category_filters/_binarize/_type_check on z3 (symbolic words, dictionary keys and category subsets; opaque score cells); exhaustive ground evaluation of the shipped dictionary and inventories',
+                text='for every document/dictionary within the bounds each cell keeps its value or becomes the large negative value exactly as stated, dependency scores and token order are untouched; every shipped dictionary category is in the inventory and every shipped category string is well formed'),
+    'C11': dict(engine='P+Z+A+N', design='§8 C11', note=NOTE_P + '; ' + NOTE_A, technique='symbolic execution of depccg.parsing.run with the worker completion order as a solver variable; z3 proof of the chunk arithmetic generated from the AST of _chunks; native batches built from solver witnesses of the search paths',
+                text='for every batch <= 6, process count <= 4, chunk size and every completion order the result list is aligned with the input; chunk slices are contiguous/ordered/non-empty/covering for len <= 10^6; misfitting shapes are rejected before parsing; each witness sentence gets the same result alone, after/before another sentence, around a too-long sentence, twice in a batch and through a real 2-process pool'),
+})
 REASONS = {}
 def main():
     checks = []
